@@ -19,6 +19,9 @@ for p in props:
         continue
     mod = importlib.import_module(f"harness.props.{pid.lower()}")
     P = mod.PROP
+    if not P.THEOREMS:
+        na.append({"property_id": pid, "reason": "correspondence check and oracle are built and run (./check " + pid + "), but the Lean property theorems are not merged into this tree yet, so no proof-level claim is made"})
+        continue
     checks.append(
         {
             "property_id": pid,
